@@ -850,12 +850,15 @@ def mc_and_scripts(ctx, names, rnd, cap, maxlen=None, maxpts=None, mc=True, genl
         t0 = time.time()
         if kind == "mc":
             c = os.path.join(wd, "MC-%s.cfg" % name)
-            open(c, "w").write(mc_cfg_text(name, False, None if name in BIG else maxlen, maxpts))
+            # quick tier: the large configurations exhaustively to history length 3 (plus a short simulation to length 5);
+            # thorough tier: to the length of their cfg (4) plus simulation to length 7
+            open(c, "w").write(mc_cfg_text(name, False, (3 if ctx.quick else None) if name in BIG else maxlen, maxpts))
             r = vf.run_tlc("GridMC.tla", c, workers={"seq": 12, "globalcc": 8, "globalleja": 8}.get(name, 2), timeout=3600, xmx="8g")
         elif kind == "sim":
             c = os.path.join(wd, "Sim-%s.cfg" % name)
-            open(c, "w").write(mc_cfg_text(name, False, (maxlen or 4) + 2, maxpts))
-            r = vf.run_tlc("GridMC.tla", c, workers=4, timeout=3600, xmx="6g", simulate="num=%d" % (25 if name in BIG else 300), depth=(maxlen or 4) + 3)
+            simlen = 5 if ctx.quick else (maxlen or 4) + 2
+            open(c, "w").write(mc_cfg_text(name, False, simlen, maxpts))
+            r = vf.run_tlc("GridMC.tla", c, workers=4, timeout=3600, xmx="6g", simulate="num=%d" % (8 if ctx.quick else (25 if name in BIG else 300)), depth=simlen + 1)
         else:
             c = os.path.join(wd, "Gen-%s.cfg" % name)
             open(c, "w").write(mc_cfg_text(name, True, min(genlen, 3) if name in BIG else genlen, maxpts))     # shorter histories: one script per abstract edge is printed
@@ -867,6 +870,8 @@ def mc_and_scripts(ctx, names, rnd, cap, maxlen=None, maxpts=None, mc=True, genl
     tasks = ([("mc", nm) for nm in names] if mc else []) + [("gen", nm) for nm in names]
     if mc and not ctx.quick:
         tasks += [("sim", nm) for nm in names]
+    elif mc:
+        tasks += [("sim", nm) for nm in names if nm in BIG]
     tasks.sort(key=lambda t: 0 if t == ("mc", "seq") else 1 if t[0] == "mc" and t[1].startswith("global") else 2)
     rs = vf.parallel_map(one, tasks, nproc=len(tasks))
     results = [{} for _ in names]
